@@ -64,6 +64,7 @@ pub fn gen_track_case(seed: u64, faults: bool) -> TrackCase {
         none_mod: 0,
         post_mod: 0,
         default_status: 0,
+        group_hook: false,
     };
     let mut dest = gen_spec(&mut r, 50, false, 5);
     dest.id = 1 + r.below(20);
